@@ -1,0 +1,250 @@
+//go:build verif
+
+package dyntpl
+
+// Verification hooks (build tag "verif"): add-only accessors used by the external
+// verification harness. Nothing here is compiled into regular builds.
+
+import (
+	"fmt"
+	"reflect"
+	"sort"
+	"strings"
+)
+
+// VerifArg mirrors arg.
+type VerifArg struct {
+	Name   []byte
+	Val    []byte
+	Static bool
+	Global bool
+}
+
+// VerifMod mirrors mod (without the function pointer).
+type VerifMod struct {
+	ID  []byte
+	Arg []VerifArg
+}
+
+// VerifNode mirrors node, field by field.
+type VerifNode struct {
+	Typ    int
+	Raw    []byte
+	Prefix []byte
+	Suffix []byte
+	Noesc  bool
+
+	CtxVar       []byte
+	CtxSrc       []byte
+	CtxOK        []byte
+	CtxSrcStatic bool
+	CtxIns       []byte
+
+	CntrVar   []byte
+	CntrInit  int
+	CntrInitF bool
+	CntrOp    int
+	CntrOpArg int
+
+	CondL, CondOKL []byte
+	CondR, CondOKR []byte
+	CondStaticL    bool
+	CondStaticR    bool
+	CondOp         int
+	CondHlp        []byte
+	CondHlpArg     []VerifArg
+	CondIns        []byte
+	CondLC         int
+
+	LoopKey       []byte
+	LoopVal       []byte
+	LoopSrc       []byte
+	LoopCnt       []byte
+	LoopCntInit   []byte
+	LoopCntStatic bool
+	LoopCntOp     int
+	LoopCondOp    int
+	LoopLim       []byte
+	LoopLimStatic bool
+	LoopSep       []byte
+	LoopBrkD      int
+
+	SwitchArg []byte
+
+	CaseL       []byte
+	CaseR       []byte
+	CaseStaticL bool
+	CaseStaticR bool
+	CaseOp      int
+	CaseHlp     []byte
+	CaseHlpArg  []VerifArg
+
+	Tpl [][]byte
+
+	Mod   []VerifMod
+	Child []VerifNode
+}
+
+func verifArgs(a []*arg) []VerifArg {
+	if len(a) == 0 {
+		return nil
+	}
+	r := make([]VerifArg, 0, len(a))
+	for _, x := range a {
+		if x == nil {
+			r = append(r, VerifArg{})
+			continue
+		}
+		r = append(r, VerifArg{Name: x.name, Val: x.val, Static: x.static, Global: x.global})
+	}
+	return r
+}
+
+func verifNodes(ns []node) []VerifNode {
+	if len(ns) == 0 {
+		return nil
+	}
+	r := make([]VerifNode, 0, len(ns))
+	for i := range ns {
+		n := &ns[i]
+		v := VerifNode{
+			Typ: int(n.typ), Raw: n.raw, Prefix: n.prefix, Suffix: n.suffix, Noesc: n.noesc,
+			CtxVar: n.ctxVar, CtxSrc: n.ctxSrc, CtxOK: n.ctxOK, CtxSrcStatic: n.ctxSrcStatic, CtxIns: n.ctxIns,
+			CntrVar: n.cntrVar, CntrInit: n.cntrInit, CntrInitF: n.cntrInitF, CntrOp: int(n.cntrOp), CntrOpArg: n.cntrOpArg,
+			CondL: n.condL, CondOKL: n.condOKL, CondR: n.condR, CondOKR: n.condOKR,
+			CondStaticL: n.condStaticL, CondStaticR: n.condStaticR, CondOp: int(n.condOp),
+			CondHlp: n.condHlp, CondHlpArg: verifArgs(n.condHlpArg), CondIns: n.condIns, CondLC: int(n.condLC),
+			LoopKey: n.loopKey, LoopVal: n.loopVal, LoopSrc: n.loopSrc, LoopCnt: n.loopCnt, LoopCntInit: n.loopCntInit,
+			LoopCntStatic: n.loopCntStatic, LoopCntOp: int(n.loopCntOp), LoopCondOp: int(n.loopCondOp),
+			LoopLim: n.loopLim, LoopLimStatic: n.loopLimStatic, LoopSep: n.loopSep, LoopBrkD: n.loopBrkD,
+			SwitchArg: n.switchArg,
+			CaseL:     n.caseL, CaseR: n.caseR, CaseStaticL: n.caseStaticL, CaseStaticR: n.caseStaticR, CaseOp: int(n.caseOp),
+			CaseHlp: n.caseHlp, CaseHlpArg: verifArgs(n.caseHlpArg),
+			Tpl: n.tpl,
+		}
+		for j := range n.mod {
+			v.Mod = append(v.Mod, VerifMod{ID: n.mod[j].id, Arg: verifArgs(n.mod[j].arg)})
+		}
+		v.Child = verifNodes(n.child)
+		r = append(r, v)
+	}
+	return r
+}
+
+// VerifTree returns a deep, read-only image of a parsed tree.
+func VerifTree(t *Tree) []VerifNode {
+	if t == nil {
+		return nil
+	}
+	return verifNodes(t.nodes)
+}
+
+// VerifTreeHash returns the checksum the registry indexes the tree by.
+func VerifTreeHash(t *Tree) uint64 {
+	if t == nil {
+		return 0
+	}
+	return t.hsum
+}
+
+// VerifResetRegistry replaces the global template registry by an empty one.
+// Not safe for use concurrently with any other registry operation.
+func VerifResetRegistry() {
+	tplDB = initDB()
+}
+
+// VerifCtxDigest renders the logical contents of a context (everything a later render could
+// observe; lengths up to ln/wl/kvl/ipvl, no capacities) reflectively, so that fields added later
+// are included automatically.
+func VerifCtxDigest(ctx *Ctx) string {
+	var sb strings.Builder
+	v := reflect.ValueOf(ctx).Elem()
+	t := v.Type()
+	names := make([]string, 0, t.NumField())
+	for i := 0; i < t.NumField(); i++ {
+		names = append(names, t.Field(i).Name)
+	}
+	sort.Strings(names)
+	for _, name := range names {
+		f := v.FieldByName(name)
+		switch name {
+		case "vars":
+			fmt.Fprintf(&sb, "vars[%d];", ctx.ln)
+			for i := 0; i < ctx.ln; i++ {
+				x := &ctx.vars[i]
+				fmt.Fprintf(&sb, "(%q,%v,%q,%v,%d)", x.key, x.val != nil, x.buf, x.cntrF, x.cntr)
+			}
+		case "w":
+			fmt.Fprintf(&sb, "w[%d];", ctx.wl)
+		case "kv":
+			fmt.Fprintf(&sb, "kv[%d];", ctx.kvl)
+		case "ipv":
+			fmt.Fprintf(&sb, "ipv[%d];", ctx.ipvl)
+		case "rl":
+			for rl := ctx.rl; rl != nil; rl = rl.next {
+				fmt.Fprintf(&sb, "rl(%d,%d,%d,%v,%v,%v);", rl.cntr, rl.stat, rl.c, rl.ctx != nil, rl.tpl != nil, rl.w != nil)
+			}
+		case "dfr":
+			fmt.Fprintf(&sb, "dfr[%d];", len(ctx.dfr))
+		case "bufX", "BufX", "Err":
+			fmt.Fprintf(&sb, "%s=%v;", name, !f.IsNil())
+		default:
+			switch f.Kind() {
+			case reflect.Slice, reflect.String:
+				fmt.Fprintf(&sb, "%s.len=%d;", name, f.Len())
+			case reflect.Bool:
+				fmt.Fprintf(&sb, "%s=%v;", name, f.Bool())
+			case reflect.Int, reflect.Int64:
+				fmt.Fprintf(&sb, "%s=%d;", name, f.Int())
+			case reflect.Uint64, reflect.Uint:
+				fmt.Fprintf(&sb, "%s=%d;", name, f.Uint())
+			case reflect.Float64:
+				fmt.Fprintf(&sb, "%s=%v;", name, f.Float())
+			case reflect.Struct:
+				if name == "BufAcc" {
+					fmt.Fprintf(&sb, "BufAcc.len=%d;", ctx.BufAcc.Len())
+				} else if name == "BufT" {
+					fmt.Fprintf(&sb, "BufT.zero=%v;", ctx.BufT.IsZero())
+				} else {
+					fmt.Fprintf(&sb, "%s=struct;", name)
+				}
+			case reflect.Ptr, reflect.Interface:
+				fmt.Fprintf(&sb, "%s.nil=%v;", name, f.IsNil())
+			default:
+				fmt.Fprintf(&sb, "%s=?%s;", name, f.Kind())
+			}
+		}
+	}
+	return sb.String()
+}
+
+// VerifCtxFields lists the field names of Ctx (for the field inventory check).
+func VerifCtxFields() []string {
+	t := reflect.TypeOf(Ctx{})
+	r := make([]string, 0, t.NumField())
+	for i := 0; i < t.NumField(); i++ {
+		r = append(r, t.Field(i).Name+" "+t.Field(i).Type.String())
+	}
+	return r
+}
+
+// VerifCtxSlots reports logical lengths and capacities of the grow-only stores.
+func VerifCtxSlots(ctx *Ctx) map[string][2]int {
+	m := map[string][2]int{
+		"vars":  {ctx.ln, cap(ctx.vars)},
+		"w":     {ctx.wl, cap(ctx.w)},
+		"kv":    {ctx.kvl, cap(ctx.kv)},
+		"ipv":   {ctx.ipvl, cap(ctx.ipv)},
+		"bufLC": {len(ctx.bufLC), cap(ctx.bufLC)},
+		"bufS":  {len(ctx.bufS), cap(ctx.bufS)},
+		"bufA":  {len(ctx.bufA), cap(ctx.bufA)},
+		"buf":   {len(ctx.buf), cap(ctx.buf)},
+		"dfr":   {len(ctx.dfr), cap(ctx.dfr)},
+	}
+	n := 0
+	for rl := ctx.rl; rl != nil; rl = rl.next {
+		n++
+	}
+	m["rl"] = [2]int{n, n}
+	return m
+}
